@@ -155,6 +155,7 @@ func getC05PKI() *c05PKI {
 			panic(err)
 		}
 		p.dir = dir
+		atExit = append(atExit, func() { _ = os.RemoveAll(dir) })
 		w := func(name, content string) {
 			if err := os.WriteFile(filepath.Join(dir, name), []byte(content), 0o600); err != nil {
 				panic(err)
